@@ -95,6 +95,14 @@ class RefFail(Exception):
     def __init__(self, k, exc, kind):
         Exception.__init__(self, k, exc, kind)
         self.k, self.exc, self.kind = k, exc, kind
+        self.nested = None        # [root, steps] of the nested argument expression in which the failure happened
+
+
+class NestedFail(RefFail):
+    """the first failing operation is inside a nested T / Spec argument (evaluated against the original target)"""
+    def __init__(self, inner, root, steps):
+        RefFail.__init__(self, inner.k, inner.exc, inner.kind)
+        self.nested = [root, steps] if inner.nested is None else inner.nested
 
 
 def ref_arg(r, target):
@@ -102,7 +110,12 @@ def ref_arg(r, target):
     containers rebuilt with the same type, everything else the literal itself"""
     tag = r[0]
     if tag == 'T':
-        return ref_eval(target, r[2], target)
+        try:
+            return ref_eval(target, r[2], target)
+        except NestedFail:
+            raise
+        except RefFail as rf:
+            raise NestedFail(rf, r[1], r[2])
     if tag == 'Spec':
         return ref_arg(r[1], target)
     if tag == 'tuple':
